@@ -22,7 +22,7 @@ print("| rule | serves | instances on this tree | decides |")
 print("|------|--------|-----------------------:|---------|")
 for rid in registry.RULES:
     if rid in ("X-contract", "F-diff", "W-witness"):
-        cnt = {"X-contract": "9 facts", "F-diff": "412 bodies", "W-witness": "37 programs"}[rid]
+        cnt = {"X-contract": "10 facts", "F-diff": "412 bodies", "W-witness": "37 programs"}[rid]
         mod, fn = registry.RULES[rid].split(".")
         text = {"X-contract": "contract facts re-derived from hashbrown's own MIR (thorough)", "F-diff": "debug and release MIR are call-for-call identical (thorough)",
                 "W-witness": "compile-fail witnesses with compiling twins"}[rid]
@@ -39,9 +39,9 @@ ms = {m["name"]: m for m in json.load(open(os.path.join(VERIF, "selftest", "muta
 print("| mutant | kind | outcome |")
 print("|--------|------|---------|")
 for line in open(sys.argv[2]):
-    m = re.match(r"^(\S+)\s+(positive|negative)\s+(\S+)\s+[\d.]+s\s+(.*)$", line)
+    m = re.match(r"^(\S+)\s+(positive|negative|views)\s+(\S+).*?\s+[\d.]+s?\s+(.*)$", line)
     if not m:
         continue
     status, kind, name, detail = m.groups()
-    rules = sorted(set(re.findall(r"'([A-Za-z0-9/-]+):", detail)))
+    rules = sorted(set(re.findall(r"""['"]([A-Za-z0-9/-]+):""", detail)))
     print("| %s | %s | %s |" % (name, kind, ("caught by " + ", ".join(rules)) if kind == "positive" else "silent (as required)"))
